@@ -342,3 +342,39 @@ Theorem C01_regex_nonempty_moves :
   forall r st e, nonempty r = true -> match_at r st = Some e -> m_pos st < m_pos e.
 Proof. exact match_at_gt. Qed.
 Print Assumptions C01_regex_nonempty_moves.
+
+(* ---- render and renderInline never raise ------------------------------------------------------ *)
+From MD Require Import Lemmas.BlockKinds Lemmas.RenderSafe.
+
+(* what parse returns meets the renderer's precondition: no token carries an integer "class"
+   attribute (the vocabulary of every block rule says so) and no child of an inline token is a fence *)
+Theorem C01_parse_output_renderable :
+  forall cfg rf cf lt, chains_sub (p_block cfg) ->
+  forall src env ts env', parse cfg rf cf lt src env = Ok (ts, env') -> Forall fence_ok_top ts.
+Proof. exact parse_renderable. Qed.
+Print Assumptions C01_parse_output_renderable.
+
+(* the renderer returns on every such stream (its only raising site is attrJoin on a fence) *)
+Theorem C01_render_total_on_parser_output :
+  forall o l p, Forall fence_ok_top l -> exists r, render_list o p l = Ok r.
+Proof. exact render_total'. Qed.
+Print Assumptions C01_render_total_on_parser_output.
+
+(* hence MarkdownIt.render / renderInline never raise: for every source and env, and every
+   configuration with the paragraph rule, Ruler-shaped chains, the absent linkifier off and the
+   post-processing chain in registration order - whatever the html / typographer / renderer options *)
+Theorem C01_render_never_raises :
+  forall cfg rf cf lt, chains_sub (p_block cfg) ->
+    term_names_ok (p_block cfg) -> mem_str nm_paragraph (c_rules (p_block cfg)) = true ->
+    ic_linkify (p_inline cfg) = false -> p_linkify cfg = false -> order_ok (ic_rules2 (p_inline cfg)) = true ->
+  forall src env e, render_md cfg rf cf lt src env <> Raise e.
+Proof. exact render_md_no_raise. Qed.
+Print Assumptions C01_render_never_raises.
+
+Theorem C01_render_inline_never_raises :
+  forall cfg rf cf lt, chains_sub (p_block cfg) ->
+    term_names_ok (p_block cfg) -> mem_str nm_paragraph (c_rules (p_block cfg)) = true ->
+    ic_linkify (p_inline cfg) = false -> p_linkify cfg = false -> order_ok (ic_rules2 (p_inline cfg)) = true ->
+  forall src env e, render_inline_md cfg rf cf lt src env <> Raise e.
+Proof. exact render_inline_md_no_raise. Qed.
+Print Assumptions C01_render_inline_never_raises.
